@@ -263,8 +263,10 @@ def c17_step(tier, seed, rundir, log):
         return False
 
     def remeasure(fam, ts):
-        # timing is noisy on a loaded machine: before growth is reported the family is measured twice more
-        # and the minimum per size is kept
+        # timing is noisy (load, and for the error families the allocator: n diagnostics with a listing of an
+        # n-character line each are page-fault bound, fast while they fit the heap already mapped): before growth is
+        # reported the family is measured twice more on its own and the MEDIAN of the three runs per size is kept
+        runs = {n: [v] for n, v in ts.items()}
         for k in range(2):
             d2 = os.path.join(d, f"again{k}")
             os.makedirs(d2, exist_ok=True)
@@ -275,11 +277,10 @@ def c17_step(tier, seed, rundir, log):
                     k2, _, v = line.rstrip("\n").partition("\t")
                     m = re.match(r"stat:scale:([\w-]+):(\d+)$", k2)
                     if m and m.group(1) == fam:
-                        n = int(m.group(2))
-                        ts[n] = min(ts.get(n, int(v)), int(v))
+                        runs.setdefault(int(m.group(2)), []).append(int(v))
             except (subprocess.TimeoutExpired, OSError):
                 return ts
-        return ts
+        return {n: sorted(vs)[len(vs) // 2] for n, vs in runs.items()}
 
     remeasured = []
     for fam, ts in sorted(times.items()):
